@@ -1,0 +1,47 @@
+//go:build verif
+
+// Contracts for govc (contract-based deductive verification, /verif). Comment-only file:
+// it is compiled only under the build tag "verif" and contains no code.
+
+package pipe
+
+//@ package_invariant[sentinel_errors] errReadEmpty != nil && errWriteFull != nil
+
+//@ spec wfFB(b *FixedBuffer) bool := b != nil && 0 <= b.r && b.r <= b.w && b.w <= len(b.buf) && len(b.buf) <= cap(b.buf)
+
+//@ func (*FixedBuffer).Len
+//@   props C21
+//@   nopanic
+//@   requires wfFB(b)
+//@   modifies nothing
+//@   ensures result0 == b.w - b.r
+
+//@ func (*FixedBuffer).Reset
+//@   props C21
+//@   nopanic
+//@   requires b != nil
+//@   modifies b.r, b.w
+//@   ensures b.r == 0 && b.w == 0
+
+//@ func (*FixedBuffer).Read
+//@   props C21
+//@   nopanic
+//@   requires wfFB(b) && disjoint(p, b.buf)
+//@   modifies b.r, b.w, p[..]
+//@   ensures[wf] wfFB(b)
+//@   ensures[empty_is_error] old(b.r) == old(b.w) ==> n == 0 && err != nil && b.r == old(b.r) && b.w == old(b.w)
+//@   ensures[count] old(b.r) != old(b.w) ==> err == nil && n == min(len(p), old(b.w) - old(b.r))
+//@   ensures[delivers_oldest_bytes_in_order] forall k int :: 0 <= k && k < n ==> p[k] == old(b.buf[b.r+k])
+//@   ensures[rest_kept_in_order] b.w - b.r == old(b.w) - old(b.r) - n && (forall k int :: 0 <= k && k < b.w - b.r ==> b.buf[b.r+k] == old(b.buf[b.r+n+k]))
+
+//@ func (*FixedBuffer).Write
+//@   props C21
+//@   nopanic
+//@   requires wfFB(b) && disjoint(p, b.buf)
+//@   modifies b.r, b.w, b.buf[..]
+//@   let oldLen := old(b.w) - old(b.r)
+//@   ensures[wf] wfFB(b)
+//@   ensures[count] n == min(len(p), len(b.buf) - oldLen)
+//@   ensures[error_iff_truncated] (err == nil) <==> (n == len(p))
+//@   ensures[old_content_kept_in_order] b.w - b.r == oldLen + n && (forall k int :: 0 <= k && k < oldLen ==> b.buf[b.r+k] == old(b.buf[b.r+k]))
+//@   ensures[appended_in_order] forall k int :: 0 <= k && k < n ==> b.buf[b.r+oldLen+k] == p[k]
